@@ -697,6 +697,13 @@ type QueryParam struct {
 	*fasthttp.Args
 }
 
+// Set sets a single parameter, overriding all previously set values for that key
+// (fasthttp.Args.Set only rewrites the first value and leaves further values of the key in place).
+func (p *QueryParam) Set(key, val string) {
+	p.Args.Del(key)
+	p.Args.Set(key, val)
+}
+
 // Keys returns all keys from the query parameters.
 func (p *QueryParam) Keys() []string {
 	keys := make([]string, 0, p.Len())
@@ -853,6 +860,7 @@ func (f *FormData) Add(key, val string) {
 
 // Set sets a single form field, overriding previously set values.
 func (f *FormData) Set(key, val string) {
+	f.Args.Del(key)
 	f.Args.Set(key, val)
 }
 
